@@ -264,6 +264,7 @@ macro_rules! t_c04_split_once {
     };
 }
 t_c04_split_once! {c04_split_once, 4, 2, 11}
+t_c04_split_once! {c04_split_once_long, 6, 1, 16} // bound="valid UTF-8 string<=6 bytes (room for a 4-byte character next to the delimiter), &str pattern<=1 byte"
 t_c04_split_once! {c04_split_once_big, 5, 3, 18} // tier=thorough bound="valid UTF-8 string<=5 bytes, &str pattern<=3 bytes"
 
 fn same_opt_pair(x: Option<(&str, &str)>, y: Option<(&str, &str)>) -> bool {
@@ -292,10 +293,10 @@ harness! {
 }
 
 harness! {
-    /// kind=bounded tier=quick bound="pattern-kind independence at the string level, reverse family: every valid UTF-8 string <= 4 bytes, ANY char c; rfind_skip / rfind_keep / rsplit_once with the char vs with its encoding as a &str"
-    #[kani::unwind(19)]
+    /// kind=bounded tier=quick bound="pattern-kind independence at the string level, reverse family: every valid UTF-8 string <= 5 bytes, ANY char c; rfind_skip / rfind_keep / rsplit_once with the char vs with its encoding as a &str"
+    #[kani::unwind(24)]
     fn c04_str_char_kind_eq_str_kind_rev(s) {
-        let hs = BStr::<4>::any(s);
+        let hs = BStr::<5>::any(s);
         let c = s.char();
         let h = hs.as_str();
         let mut tmp = [0u8; 4];
@@ -322,6 +323,37 @@ harness! {
         chk!(s, string::contains(h, c) == string::contains(h, p), "C04.string_contains.char_eq_str_kind");
         chk!(s, string::rcontains(h, c) == string::rcontains(h, p), "C04.string_rcontains.char_eq_str_kind");
         cov!(s, p.len() == 3 && string::find(h, c) == Some(1), "C04.cover.three_byte_char_found_after_ascii");
+    }
+}
+
+harness! {
+    /// kind=bounded tier=quick bound="LONG haystacks (word-at-a-time fast paths need one): ASCII haystack of 17..=20 bytes, any bytes < 0x80, one-byte ASCII needle; string::find / rfind and slice::bytes_find / bytes_rfind against the first/last-occurrence reference"
+    #[kani::unwind(23)]
+    fn c04_long_haystack_one_byte_needle(s) {
+        let raw: [u8; 20] = s.bytes();
+        let len = 17 + s.upto(3);
+        let mut ascii = true;
+        let mut j = 0;
+        while j < 20 {
+            if raw[j] >= 0x80 {
+                ascii = false;
+            }
+            j += 1;
+        }
+        s.assume(ascii);
+        let hb = &raw[..len];
+        let h = unsafe { core::str::from_utf8_unchecked(hb) };
+        let nb = [s.u8()];
+        s.assume(nb[0] < 0x80);
+        let n = unsafe { core::str::from_utf8_unchecked(&nb) };
+        let c = nb[0] as char;
+        let e = ref_find(hb, &nb);
+        let er = ref_rfind(hb, &nb);
+        chk!(s, string::find(h, n) == e && string::find(h, c) == e, "C04.string_find.long_haystack.first_occurrence");
+        chk!(s, string::rfind(h, n) == er && string::rfind(h, c) == er, "C04.string_rfind.long_haystack.last_occurrence");
+        chk!(s, slice::bytes_find(hb, &nb) == e, "C04.bytes_find.long_haystack.first_occurrence");
+        chk!(s, slice::bytes_rfind(hb, &nb) == er, "C04.bytes_rfind.long_haystack.last_occurrence");
+        cov!(s, matches!((e, er), (Some(a), Some(b)) if a < 3 && b > 15), "C04.cover.long_haystack_two_far_occurrences");
     }
 }
 
